@@ -501,7 +501,35 @@ fn c13_one(ctx: &Ctx, world: &mut World, fam: &str, start: &StartState, p: &Prog
     }
 }
 
+/// quick: the hand-picked boundary strings; thorough: those plus every string of up to three
+/// characters over {space, newline, underscore, 'a', 'é'}
+fn c13_strings(tier: Tier) -> Vec<String> {
+    let mut v: Vec<String> = C13_STRINGS.iter().map(|s| s.to_string()).collect();
+    if tier == Tier::Thorough {
+        let alpha = [' ', '\n', '_', 'a', 'é'];
+        let mut layer: Vec<String> = vec![String::new()];
+        for _ in 0..3 {
+            let mut next = vec![];
+            for w in &layer {
+                for c in alpha {
+                    let mut x = w.clone();
+                    x.push(c);
+                    next.push(x);
+                }
+            }
+            for x in &next {
+                if !v.contains(x) {
+                    v.push(x.clone());
+                }
+            }
+            layer = next;
+        }
+    }
+    v
+}
+
 pub fn run_c13(ctx: &Ctx) -> i32 {
+    let strings = c13_strings(ctx.tier);
     let homes = |k: Kind| matches!(k, Kind::Panic);
     let sampler = Sampler::new(4, ctx.seed);
     let mut st = TreeStats::default();
@@ -512,7 +540,7 @@ pub fn run_c13(ctx: &Ctx) -> i32 {
     for kind in ["execute", "instantiate", "migrate", "sudo", "reply"] {
         for context in 0..9 {
             for pos in 0..C13_POS.len() {
-                for si in 0..C13_STRINGS.len() {
+                for si in 0..strings.len() {
                     cases.push((kind.to_string(), context, pos, si));
                 }
             }
@@ -521,7 +549,7 @@ pub fn run_c13(ctx: &Ctx) -> i32 {
     let mut invalid = 0u64;
     let mut valid = 0u64;
     for (_, _, pos, si) in &cases {
-        let nd = c13_node(*pos, C13_STRINGS[*si], 0);
+        let nd = c13_node(*pos, &strings[*si], 0);
         if super::model::invalid_response(&nd) {
             invalid += 1;
         } else {
@@ -535,10 +563,10 @@ pub fn run_c13(ctx: &Ctx) -> i32 {
             with_world(false, |world| {
                 let ad = Addrs::of(world);
                 for (kind, context, pos, si) in ch {
-                    let Some((p, xi)) = c13_program(&ad, kind, *context, *pos, C13_STRINGS[*si]) else { continue };
+                    let Some((p, xi)) = c13_program(&ad, kind, *context, *pos, &strings[*si]) else { continue };
                     for s in &use_starts {
                         let fam = format!("c13:{}:ctx{}:{}", kind, context, C13_POS[*pos]);
-                        sampler.offer(hash64(&(kind, context, pos, si), 3), || json!({"entry_point": kind, "context": context, "position": C13_POS[*pos], "string": C13_STRINGS[*si], "program": program_json(&p)}));
+                        sampler.offer(hash64(&(kind, context, pos, si), 3), || json!({"entry_point": kind, "context": context, "position": C13_POS[*pos], "string": strings[*si], "program": program_json(&p)}));
                         c13_one(ctx, world, &fam, s, &p, xi, C13_POS[*pos], &mut lst);
                     }
                 }
@@ -554,7 +582,7 @@ pub fn run_c13(ctx: &Ctx) -> i32 {
         &st,
         use_starts.len(),
         &sampler,
-        json!({"strings": C13_STRINGS, "positions": C13_POS, "entry_points": ["execute", "instantiate", "migrate", "sudo", "reply"], "contexts": "top level; sub-message under each reply_on; two levels deep under each reply_on; reply handler of ok/failed child under Success/Always/Error, one and two levels deep",
+        json!({"strings": strings.len(), "hand_picked_strings": C13_STRINGS, "generated_strings": if ctx.tier == Tier::Thorough { "every string of 1..=3 characters over {space, newline, underscore, a, é}" } else { "none (thorough tier only)" }, "positions": C13_POS, "entry_points": ["execute", "instantiate", "migrate", "sudo", "reply"], "contexts": "top level; sub-message under each reply_on; two levels deep under each reply_on; reply handler of ok/failed child under Success/Always/Error, one and two levels deep",
                "cases_with_invalid_string": invalid, "cases_with_valid_string": valid}),
         vec![],
         vec!["only ASCII whitespace and non-whitespace Unicode occur in the string alphabet, so 'whitespace' is unambiguous".into()],
